@@ -974,8 +974,12 @@ def _callbacks(chk, f_pe, f_rhs, f_peq, f_pqe):
     cfg = f_rhs.cfg()
     direct = [(n, c) for n in cfg.nodes_where(lambda n: n.kind != "branch") for c in n.calls()
               if isinstance(c.func, ast.Name) and c.func.id == "callback"]
-    chk.ob("DOM-3", "sequential dispatcher calls the callback at exactly one site", len(direct) == 1, f_rhs.where(),
-           detail="%d sites" % len(direct), construct=f_rhs.ident, text="callback call sites")
+    ids_ = [n.id for n, _ in direct]
+    twice = [n for n, _ in direct if cfg.path_avoiding(n.id, ids_, [], ignore_exc=True) is not None]
+    chk.ob("DOM-3", "sequential dispatcher calls the callback at most once on any path", bool(direct) and not twice,
+           f_rhs.where(twice[0].ast) if twice else f_rhs.where(),
+           detail="%d sites; a second call site is reachable from %s" % (len(direct), twice[0].text(40)) if twice else "%d sites" % len(direct),
+           construct=f_rhs.ident, text="callback call sites")
     loops = [h for h in cfg.nodes if h.kind == "loop"]
     for n, c in direct:
         inloop = any(_in_body(h.ast, c) for h in loops)
